@@ -187,6 +187,12 @@ fn run<T: QElem>(c: &Case, lx: &mut Local) {
                     }
                 }
             }
+            // one reading for all five strategies: the floor/ceil index pair and the fraction are shared by the
+            // strategies, so some single admissible reading of (N-1)q must explain all five results at once
+            if !big && row.iter().all(|v| v.is_some()) && !k1_any(&[3, 4]) {
+                let consistent = nsmc::qoracle::readings(q, n).iter().any(|r| (0..5).all(|si| nsmc::qelem::accepts_under(&sorted, r, Strat::ALL[si], row[si].as_ref().unwrap())));
+                lx.check(consistent, "C19/strategies-use-different-positions", || format!("[{}] q={:?} on {:?}: results {:?} (Lower, Higher, Nearest, Midpoint, Linear) are not explained by any single reading of the position (N-1)q", T::NAME, q, sorted, row));
+            }
             // all five coincide at integral positions
             if integral_position(q, n) {
                 lx.count("integral_position_points", 1);
@@ -263,6 +269,125 @@ fn main() {
                 0 => run::<i8>(c, lx),
                 1 => run::<i64>(c, lx),
                 _ => run::<N64>(c, lx),
+            }
+        },
+    );
+    // long lanes under adversarial pivot policies: the laws that need no oracle
+    rep.dispatch_chunk = 16;
+    let nlong = rep.cfg.pick(140, 256);
+    rep.run_sub(
+        "long-lanes-adversarial-policies",
+        &format!("every lane length 13..={} x 4 input families x 6 adversarial pivot policies (recursion depth up to n-1) x 5 strategies: q in {{0, 1/(n-1), 0.5, 1-1/(n-1), next_down(1), 1}} - q=0 gives the minimum, q=1 the maximum, monotone in q, Lower <= Higher, all results within [min, max]", nlong),
+        (13..=nlong).flat_map(|n| (0..4usize).flat_map(move |fam| Policy::ADVERSARIAL.iter().map(move |&p| (n, fam, p)).collect::<Vec<_>>())),
+        |c, lx| {
+            let (n, fam, pol) = *c;
+            lx.nontrivial(true);
+            let vals: Vec<i64> = (0..n).map(|i| match fam { 0 => i as i64, 1 => (n - i) as i64, 2 => ((i * 7919 + 5) % n) as i64, _ => (i % 3) as i64 }).map(|r| r * 10 - 7).collect();
+            let (mn, mx) = (*vals.iter().min().unwrap(), *vals.iter().max().unwrap());
+            let d = (n - 1) as f64;
+            let qs = [0.0, 1.0 / d, 0.5, 1.0 - 1.0 / d, nsmc::patterns::next_down(1.0), 1.0];
+            let mode = PivotMode::Bounded { policy: pol, bound: 0 };
+            let mut table: Vec<Vec<Option<i64>>> = Vec::new();
+            for &q in &qs {
+                let mut row = Vec::new();
+                for &s in &Strat::ALL {
+                    let set = call_set(&vals, q, s, 1, &mode, lx);
+                    row.push(set[0]);
+                }
+                table.push(row);
+            }
+            for (qi, row) in table.iter().enumerate() {
+                for (si, v) in row.iter().enumerate() {
+                    match v {
+                        None => lx.fail("C19/panic", || format!("quantile_mut({:?},{:?}) on a lane of {} (family {}, policy {:?}) panicked", qs[qi], Strat::ALL[si], n, fam, pol)),
+                        Some(v) => {
+                            lx.check(mn <= *v && *v <= mx, "C19/outside-min-max", || format!("length {} family {} policy {:?}: quantile({:?},{:?}) = {} outside [{}, {}]", n, fam, pol, qs[qi], Strat::ALL[si], v, mn, mx));
+                            if qi == 0 {
+                                lx.check(*v == mn, "C19/q0-not-min", || format!("length {} family {} policy {:?}: quantile(0,{:?}) = {}, minimum {}", n, fam, pol, Strat::ALL[si], v, mn));
+                            }
+                            if qi == qs.len() - 1 {
+                                lx.check(*v == mx, "C19/q1-not-max", || format!("length {} family {} policy {:?}: quantile(1,{:?}) = {}, maximum {}", n, fam, pol, Strat::ALL[si], v, mx));
+                            }
+                            if qi > 0 {
+                                if let Some(prev) = table[qi - 1][si] {
+                                    lx.check(prev <= *v, "C19/not-monotone-in-q", || format!("length {} family {} policy {:?} {:?}: quantile({:?}) = {} > quantile({:?}) = {}", n, fam, pol, Strat::ALL[si], qs[qi - 1], prev, qs[qi], v));
+                                }
+                            }
+                        }
+                    }
+                }
+                if let (Some(lo), Some(hi)) = (row[0], row[1]) {
+                    lx.check(lo <= hi, "C19/lower-above-higher", || format!("length {} policy {:?} q={:?}: Lower {} > Higher {}", n, pol, qs[qi], lo, hi));
+                }
+            }
+        },
+    );
+    // several long lanes answered by one bulk call: each lane's results obey the laws of ITS lane
+    let lls: Vec<usize> = if rep.cfg.thorough() { vec![9, 17, 18, 33, 34, 40, 65, 66, 100, 129] } else { vec![17, 18, 33, 34, 65, 66] };
+    let mut mcases: Vec<(usize, usize, usize, usize)> = Vec::new();
+    for &ll in &lls {
+        for nl in [2usize, 3] {
+            for axis in 0..2usize {
+                for nq in [8usize, 20, 40, 80] {
+                    if nq <= 2 * ll + 2 {
+                        mcases.push((ll, nl, axis, nq));
+                    }
+                }
+            }
+        }
+    }
+    rep.run_sub(
+        "several-long-lanes-bulk",
+        &format!("2 and 3 lanes of length {:?} with disjoint value ranges along either axis x sorted request lists of 8..80 q values from 0 to 1 x 5 strategies: every entry lies within its own lane's [min, max], q=0 / q=1 give that lane's minimum / maximum, entries are non-decreasing along the request list", lls),
+        mcases.into_iter(),
+        |c, lx| {
+            use ndarray_stats::QuantileExt;
+            let (ll, nl, axis, nq) = *c;
+            lx.nontrivial(true);
+            let shape: Vec<usize> = if axis == 1 { vec![nl, ll] } else { vec![ll, nl] };
+            let lanes = nsmc::layouts::lanes_flat(&shape, axis);
+            let mut data = vec![0i64; nl * ll];
+            for (j, lane) in lanes.iter().enumerate() {
+                for (k, &fi) in lane.iter().enumerate() {
+                    data[fi] = (((k * (7 + 2 * j) + 3 * j) % ll) as i64) * 10 + 100_000 * (nl - j) as i64;
+                }
+            }
+            let mut qs: Vec<f64> = (0..nq).map(|i| i as f64 / (nq - 1) as f64).collect();
+            qs[nq - 1] = 1.0;
+            let ax = Axis(axis);
+            for &strat in &Strat::ALL {
+                lx.single(|lx| {
+                    let mut a = ndarray::ArrayD::from_shape_vec(ndarray::IxDyn(&shape), data.clone()).unwrap();
+                    let qa = Array1::from(qs.iter().map(|&q| n64(q)).collect::<Vec<N64>>());
+                    let r = guarded(|| nsmc::with_strategy!(strat, i, a.quantiles_axis_mut(ax, &qa, i)));
+                    match r {
+                        Ok(Ok(res)) => {
+                            for (j, lane) in lanes.iter().enumerate() {
+                                let (mn, mx) = (lane.iter().map(|&i| data[i]).min().unwrap(), lane.iter().map(|&i| data[i]).max().unwrap());
+                                let mut prev: Option<i64> = None;
+                                for jq in 0..nq.min(res.len_of(ax)) {
+                                    let v = res.index_axis(ax, jq).iter().cloned().nth(j).unwrap();
+                                    lx.check(mn <= v && v <= mx, "C19/outside-min-max", || format!("{:?} {:?}: lane {} entry for q={:?} is {} outside that lane's [{}, {}]", c, strat, j, qs[jq], v, mn, mx));
+                                    if jq == 0 {
+                                        lx.check(v == mn, "C19/q0-not-min", || format!("{:?} {:?}: lane {} q=0 gives {}, minimum {}", c, strat, j, v, mn));
+                                    }
+                                    if jq == nq - 1 {
+                                        lx.check(v == mx, "C19/q1-not-max", || format!("{:?} {:?}: lane {} q=1 gives {}, maximum {}", c, strat, j, v, mx));
+                                    }
+                                    if let Some(p) = prev {
+                                        lx.check(p <= v, "C19/not-monotone-in-q", || format!("{:?} {:?}: lane {}: quantile({:?}) = {} > quantile({:?}) = {}", c, strat, j, qs[jq - 1], p, qs[jq], v));
+                                    }
+                                    prev = Some(v);
+                                }
+                            }
+                            hash_of(&res.iter().cloned().collect::<Vec<_>>())
+                        }
+                        other => {
+                            lx.fail("C19/panic", || format!("quantiles_axis_mut failed: {:?}; {:?} {:?}", other.map(|r| r.map(|_| ())), c, strat));
+                            0
+                        }
+                    }
+                });
             }
         },
     );
